@@ -30,6 +30,10 @@ def initial_cache(seed, variant=0):
     if variant == 4:     # falsy values of every kind (a default applied with `or` / `if not value` would replace them)
         return {'sigfield1': b'', 'sigfield2': bytearray(), 'sigfield3': b'\x00', 'timestamp': 0, 'custom': [], 'returned': False,
                 'E': 0, 'P': b'', 'IR': (), 'x': None, 's': 0.0, 'ts_threshold': 0, b'k': [b'\x01']}
+    if variant == 5:     # one list object sits under a string key and under byte keys at once (the embedder's dict aliases it)
+        L, L2 = [b'a', b'b'], [b'p']
+        return {'sigfield1': b'f1', 'timestamp': 1_700_000_000, 'custom': L, b'custom': L, b'k': L, 'P': L2, b'P': L2, 'E': L2, b'E': L2,
+                b'': L, 'inputs': L}
     if variant == 2:
         return {'timestamp': '1700000000', 'sigfield1': [b'a', b'b'], 'custom': {'inner': [1, 2]}, 'returned': 0, b'k': [b'\x01']}
     return {
@@ -164,7 +168,7 @@ def attack_case(ctx, idxs):
     if len(idxs) == 1:
         # every single cache-touching path, also inside IF / TRY / EVAL, on initial caches whose protected
         # entries have other value types
-        for v in (1, 2, 3, 4):
+        for v in (1, 2, 3, 4, 5):
             for wrapname, wrapped in (('top', script), ('IF', op('TRUE') + op('IF') + len(script).to_bytes(2, 'big') + script),
                                       ('TRY', op('TRY_EXCEPT') + len(script).to_bytes(2, 'big') + script + b'\x00\x00'),
                                       ('EVAL', P(script) + op('EVAL') if len(script) < 1000 else script)):
